@@ -211,6 +211,9 @@ func (x *Exec) runUnit(recvList *ast.FieldList, ftype *ast.FuncType, body *ast.B
 			penv.results = append(penv.results, v)
 			penv.vars[o.Name()] = v
 			penv.vars[fmt.Sprintf("result%d", i)] = v
+			if i == len(fr.results)-1 && strings.HasPrefix(o.Name(), "result") && o.Type().String() == "error" {
+				penv.vars["err"] = v
+			}
 		}
 		for k, e := range ct.Ensures {
 			t := x.specEval(rs, e.Expr, penv)
